@@ -179,7 +179,7 @@ def _explore(comp, task):
         for c in task["symbolic_classes"]:
             sym_dims[c] = z3.Int(f"dim_{c}")
             dv[c] = sym_dims[c]
-    setup = Setup(comp, dv, task["N"])
+    setup = Setup(comp, dv, task["N"], uf_vals=(mode == "c06"))
     fns = comp.functions
     names = list(comp.formats.keys())
     out1 = comp.target
@@ -200,8 +200,18 @@ def _explore(comp, task):
     solver = setup.shared_solver(task.get("solver_timeout_ms", 60000))
     out = {}
 
+    backends = None
+    if mode == "c06":
+        from tensora.codegen import ir_to_c, ir_to_llvm
+
+        from . import cfront, llfront
+
+        ctext = ir_to_c(comp.module)
+        backends = {"c": cfront.parse_functions(ctext), "llvm": llfront.parse_module(str(ir_to_llvm(comp.module)))}
+        cap_lit = _cap_literal(sent)
+
     def mk(prefix):
-        m = Machine(prefix, max_loop_iter=bound, solver=solver)
+        m = Machine(prefix, max_loop_iter=bound, solver=solver, falg=sym.UFAlgebra() if mode == "c06" else None)
         m.shared_solver = True
         return m
 
@@ -215,7 +225,39 @@ def _explore(comp, task):
         setup.apply(m)
         ex = IRExec(m, sent)
         try:
-            if mode == "c07":
+            if mode == "c06":
+                from . import cfront, llfront
+
+                kinds = ["evaluate"] if task.get("program") == "evaluate" else ["assemble", "compute"]
+                outs = {"ir": out1, "c": out1 + "#c", "llvm": out1 + "#llvm"}
+                for tag in ("c", "llvm"):
+                    second_output(m, comp, outs[tag])
+                for kind in kinds:
+                    run_kernel(m, ex, kind, args1)
+                    for tag in ("c", "llvm"):
+                        argsb = [outs[tag] if n == out1 else n for n in names]
+                        if tag == "c":
+                            r = cfront.CExec(m, cap_lit).run(backends["c"][kind], argsb)
+                        else:
+                            r = llfront.LLExec(m, cap_lit).run(backends["llvm"][kind], argsb)
+                        m.flush_obligations()
+                        if not (isinstance(r, int) and r == 0):
+                            raise Violation("mismatch", ("return value differs", tag, kind), kassert._model(m))
+                    counts = kassert.output_shape(m, out1, False, [])
+                    for tag in ("c", "llvm"):
+                        cb = kassert.output_shape(m, outs[tag], False, [])
+                        if cb != counts:
+                            raise Violation("mismatch", ("level sizes differ", tag, kind, counts, cb), kassert._model(m))
+                        try:
+                            flags["compared_cells"] += _compare_outputs(m, out1, outs[tag], counts,
+                                                                        with_vals=(kind != "assemble"), lengths=True)
+                        except Violation as v:
+                            v.label = (tag, kind) + tuple(v.label)
+                            v.detail = {"backend": tag, "kind": kind}
+                            raise
+                if counts and counts[-1] > 0:
+                    flags["nonempty"] = True
+            elif mode == "c07":
                 comp0 = task["_comp0"]
                 ex0 = IRExec(m, sent)
                 second_output(m, comp, out2)
@@ -400,7 +442,16 @@ def _same_structure(m, out, snapshot, index_cells):
         pass
 
 
-def _compare_outputs(m, a, b, counts, with_vals=True):
+def _cap_literal(sent):
+    """The default capacity as a pair of integer literals (a * b), if it has that shape."""
+    from tensora.ir import ast as ir
+
+    if isinstance(sent, ir.Multiply) and isinstance(sent.left, ir.IntegerLiteral) and isinstance(sent.right, ir.IntegerLiteral):
+        return (sent.left.value, sent.right.value)
+    return None
+
+
+def _compare_outputs(m, a, b, counts, with_vals=True, lengths=False):
     """Raw pos/crd/vals of two outputs equal cell by cell (for all inputs of this path)."""
     ta, tb = m.tensors[a], m.tensors[b]
     conds = []
@@ -415,6 +466,9 @@ def _compare_outputs(m, a, b, counts, with_vals=True):
             conds.append((icmp("==", m.read_cell(pa, k), m.read_cell(pb, k)), ("pos differs", l, k)))
         for q in range(counts[l]):
             conds.append((icmp("==", m.read_cell(ca, q), m.read_cell(cb, q)), ("crd differs", l, q)))
+        if lengths:
+            conds.append((icmp("==", pa.length, pb.length), ("pos block length differs", l)))
+            conds.append((icmp("==", ca.length, cb.length), ("crd block length differs", l)))
         n_prev = counts[l]
     if with_vals:
         va, vb = m.heap[ta.vals.block], m.heap[tb.vals.block]
